@@ -225,9 +225,16 @@ class _Builder:
                     nfa.eps[e].add(z)
                 cur = z
             elif op is sc.SUBPATTERN:
-                if av[1] or av[2]:
+                add_fl, del_fl = av[1] or 0, av[2] or 0
+                if (add_fl | del_fl) & ~(sc.SRE_FLAG_VERBOSE | sc.SRE_FLAG_DOTALL | sc.SRE_FLAG_MULTILINE):
                     raise AnalysisError('inline flags in group are not supported')
-                s, e = self.build(av[3])
+                # VERBOSE has already been consumed by the parser; DOTALL / MULTILINE are read from self.flags below
+                saved = self.flags
+                self.flags = (self.flags | add_fl) & ~del_fl
+                try:
+                    s, e = self.build(av[3])
+                finally:
+                    self.flags = saved
                 nfa.eps[cur].add(s)
                 cur = e
             elif op in (sc.MAX_REPEAT, sc.MIN_REPEAT) or str(op) == 'POSSESSIVE_REPEAT':
